@@ -74,6 +74,67 @@ func StrictTokens(v string) (tokens []string, strict bool) {
 	return tokens, true
 }
 
+// ListTokens reads v as an RFC 7230 comma list `#token`: elements separated
+// by commas, optional SP/HT around each ("surrounding blanks ignored"), empty
+// elements ignored. ok is false when a non-empty element is not a token
+// (quoted string, comment, inner blank, other separator): how such a value is
+// to be read the property does not say.
+func ListTokens(v string) (tokens []string, ok bool) {
+	for _, e := range strings.Split(v, ",") {
+		e = TrimBlanks(e)
+		if e == "" {
+			continue
+		}
+		if !IsToken(e) {
+			return nil, false
+		}
+		tokens = append(tokens, e)
+	}
+	return tokens, true
+}
+
+// ListOptions reads v as the extension list of RFC 6455 §9.1 with RFC 7230
+// list rules: offers separated by commas, parameters by semicolons, optional
+// SP/HT around both, empty list elements ignored;
+// param = token [ "=" ( token / quoted-string ) ], where only quoted strings
+// whose content is itself a token are read (anything with escapes or
+// separators inside quotes: ok=false). At least one offer is required.
+func ListOptions(v string) (opts []Option, ok bool) {
+	for _, e := range strings.Split(v, ",") {
+		if TrimBlanks(e) == "" {
+			continue
+		}
+		parts := strings.Split(e, ";")
+		name := TrimBlanks(parts[0])
+		if !IsToken(name) {
+			return nil, false
+		}
+		o := Option{Name: name}
+		for _, p := range parts[1:] {
+			p = TrimBlanks(p)
+			k, val := p, ""
+			if i := strings.IndexByte(p, '='); i >= 0 {
+				k, val = p[:i], p[i+1:]
+				if len(val) >= 2 && val[0] == '"' && val[len(val)-1] == '"' {
+					val = val[1 : len(val)-1]
+				}
+				if !IsToken(val) {
+					return nil, false
+				}
+			}
+			if !IsToken(k) {
+				return nil, false
+			}
+			o.Params = append(o.Params, Param{k, val})
+		}
+		opts = append(opts, o)
+	}
+	return opts, len(opts) > 0
+}
+
+// HasInnerHT reports whether the (blank-trimmed) value has an HT inside.
+func HasInnerHT(v string) bool { return strings.Contains(TrimBlanks(v), "\t") }
+
 // Param is one extension parameter; Value is "" for a valueless parameter.
 type Param struct{ Key, Value string }
 
@@ -164,9 +225,9 @@ func FromOffer(answer Option, offers []Option) bool {
 type VersionKind int
 
 const (
-	VersionOK          VersionKind = iota // HTTP/<major>.<minor>, plain digits, no leading zeros, small
+	VersionOK          VersionKind = iota // HTTP/<major>.<minor>, plain digits, no leading zeros, major of at most 9 and minor of at most 18 digits
 	VersionLeadingZero                    // digits only but with a leading zero (open)
-	VersionHuge                           // digits only, a component longer than 9 digits (open: overflow handling is not specified)
+	VersionHuge                           // digits only, major 1, a minor of more than 18 digits (open: the statement does not say how large an x "a later 1.x" has to be understood)
 	VersionMalformed                      // anything else: not an HTTP version
 	// VersionMajorNotOne: digits only, the major numeral has leading zeros or
 	// more than 9 digits and its mathematical value is not 1 (e.g. 2^64+1,
@@ -195,7 +256,7 @@ func ParseVersion(tok string) (kind VersionKind, major, minor int) {
 			if s[i] < '0' || s[i] > '9' {
 				return 0, false
 			}
-			if i < 9 {
+			if i < 18 {
 				n = n*10 + int(s[i]-'0')
 			}
 		}
@@ -209,7 +270,7 @@ func ParseVersion(tok string) (kind VersionKind, major, minor int) {
 	if stripped := strings.TrimLeft(a, "0"); stripped != "1" && (len(a) > 9 || a[0] == '0' && len(a) > 1) {
 		return VersionMajorNotOne, 0, 0
 	}
-	if len(a) > 9 || len(b) > 9 {
+	if len(a) > 9 || len(b) > 18 {
 		return VersionHuge, 0, 0
 	}
 	if (len(a) > 1 && a[0] == '0') || (len(b) > 1 && b[0] == '0') {
